@@ -1274,4 +1274,298 @@ theorem cap3_project_optimal_hollow (hs : LawfulSqrt sq) (s : Capsule3 K) (p y :
     nlinarith [mul_nonneg h0 (sub_nonneg.2 (by linarith : d.x * (y.x - P.x) + d.y * (y.y - P.y) + d.z * (y.z - P.z) ≤ η)),
       mul_nonneg (sub_nonneg.2 hηr) (by linarith : 0 ≤ η + s.r - 2 * D)]
 
+/-! ## Cylinder (model = corrected cap selection on the mid-plane, see fixes/C05-cylinder-midplane-tie.diff) -/
+
+/-- domain: non-negative half-height, radius at least `ε` -/
+def CylOk (s : Cylinder K) : Prop := 0 ≤ s.hh ∧ ((mkRat 1 4503599627370496 : ℚ) : K) ≤ s.r
+/-- surface of the cylinder: a member on a cap plane or on the lateral surface -/
+def CylBnd (s : Cylinder K) (x : V3 K) : Prop :=
+  letI := fieldNum K sq
+  s.Mem x ∧ (x.y = s.hh ∨ x.y = -s.hh ∨ x.x * x.x + x.z * x.z = s.r * s.r)
+
+/-- the radial direction used by the code: a unit vector, equal to `(x,z)/ρ` when `ρ > ε` -/
+private theorem cyl_dir (hs : LawfulSqrt sq) (x z : K) :
+    letI := fieldNum K sq
+    0 ≤ (⟨x, z⟩ : V2 K).norm ∧ (⟨x, z⟩ : V2 K).norm * (⟨x, z⟩ : V2 K).norm = x * x + z * z ∧
+    ((if (⟨x, z⟩ : V2 K).norm ≤ eps then (⟨1, 0⟩ : V2 K) else (⟨x, z⟩ : V2 K).sdiv (⟨x, z⟩ : V2 K).norm).normSq = 1) ∧
+    (((mkRat 1 4503599627370496 : ℚ) : K) < (⟨x, z⟩ : V2 K).norm →
+      x = (if (⟨x, z⟩ : V2 K).norm ≤ eps then (⟨1, 0⟩ : V2 K) else (⟨x, z⟩ : V2 K).sdiv (⟨x, z⟩ : V2 K).norm).x * (⟨x, z⟩ : V2 K).norm ∧
+      z = (if (⟨x, z⟩ : V2 K).norm ≤ eps then (⟨1, 0⟩ : V2 K) else (⟨x, z⟩ : V2 K).sdiv (⟨x, z⟩ : V2 K).norm).y * (⟨x, z⟩ : V2 K).norm) ∧
+    ((⟨x, z⟩ : V2 K).norm ≤ ((mkRat 1 4503599627370496 : ℚ) : K) →
+      (if (⟨x, z⟩ : V2 K).norm ≤ eps then (⟨1, 0⟩ : V2 K) else (⟨x, z⟩ : V2 K).sdiv (⟨x, z⟩ : V2 K).norm) = ⟨1, 0⟩) := by
+  letI := fieldNum K sq
+  have he := eps_pos (K := K)
+  have hnn : 0 ≤ x * x + z * z := by nlinarith [mul_self_nonneg x, mul_self_nonneg z]
+  have h2 := hs.sq_mul _ hnn
+  have h0 := hs.nonneg _ hnn
+  have hnorm : (⟨x, z⟩ : V2 K).norm = sq (x * x + z * z) := by
+    simp only [V2.norm, V2.normSq, V2.dot, fieldNum_sqrt]
+  have heps : (eps : K) = ((mkRat 1 4503599627370496 : ℚ) : K) := by simp only [eps, fieldNum_lit]
+  by_cases c : (⟨x, z⟩ : V2 K).norm ≤ eps
+  · rw [if_pos c]
+    rw [hnorm, heps] at c
+    rw [hnorm]
+    exact ⟨h0, h2, by simp [V2.normSq, V2.dot], fun c' => absurd c (not_le.mpr c'), fun _ => rfl⟩
+  · rw [if_neg c]
+    rw [hnorm, heps] at c
+    rw [hnorm]
+    push Not at c
+    have hne : sq (x * x + z * z) ≠ 0 := ne_of_gt (lt_trans he c)
+    refine ⟨h0, h2, ?_, fun _ => ?_, fun c' => absurd c' (not_le.mpr c)⟩
+    · simp only [V2.sdiv, V2.normSq, V2.dot]
+      rw [div_mul_div_comm, div_mul_div_comm, ← add_div, h2]
+      exact div_self (by rw [← h2]; exact mul_self_ne_zero.mpr hne)
+    · simp only [V2.sdiv]
+      exact ⟨(div_mul_cancel₀ x hne).symm, (div_mul_cancel₀ z hne).symm⟩
+
+/-- structural description of `Cylinder::project_local_point`: radial distance `ρ`, radial unit direction `d`, and which of the
+eight result shapes was produced together with the comparisons that selected it. -/
+private theorem cyl_cases (hs : LawfulSqrt sq) (s : Cylinder K) (p : V3 K) (solid : Bool) :
+    letI := fieldNum K sq
+    ∃ (ρ : K) (d : V2 K), 0 ≤ ρ ∧ ρ * ρ = p.x * p.x + p.z * p.z ∧ d.normSq = 1 ∧
+      (((mkRat 1 4503599627370496 : ℚ) : K) < ρ → p.x = d.x * ρ ∧ p.z = d.y * ρ) ∧
+      (ρ ≤ ((mkRat 1 4503599627370496 : ℚ) : K) → d = ⟨1, 0⟩) ∧
+      (((-s.hh ≤ p.y ∧ p.y ≤ s.hh ∧ ρ ≤ s.r) ∧ (s.project p solid).inside = true ∧
+          ((solid = true ∧ (s.project p solid).pt = p) ∨
+           (solid = false ∧
+            (((s.project p solid).pt = ⟨p.x, s.hh, p.z⟩ ∧ s.hh - p.y ≤ p.y - (-s.hh) ∧ s.hh - p.y ≤ s.r - ρ) ∨
+             ((s.project p solid).pt = ⟨p.x, -s.hh, p.z⟩ ∧ p.y - (-s.hh) ≤ s.hh - p.y ∧ p.y - (-s.hh) ≤ s.r - ρ) ∨
+             ((s.project p solid).pt = ⟨d.x * s.r, p.y, d.y * s.r⟩ ∧ s.r - ρ ≤ s.hh - p.y ∧ s.r - ρ ≤ p.y - (-s.hh)))))) ∨
+       (¬(-s.hh ≤ p.y ∧ p.y ≤ s.hh ∧ ρ ≤ s.r) ∧ (s.project p solid).inside = false ∧
+          ((s.hh < p.y ∧ ρ ≤ s.r ∧ (s.project p solid).pt = ⟨p.x, s.hh, p.z⟩) ∨
+           (s.hh < p.y ∧ s.r < ρ ∧ (s.project p solid).pt = ⟨d.x * s.r, s.hh, d.y * s.r⟩) ∨
+           (p.y < -s.hh ∧ ρ ≤ s.r ∧ (s.project p solid).pt = ⟨p.x, -s.hh, p.z⟩) ∨
+           (p.y < -s.hh ∧ s.r < ρ ∧ (s.project p solid).pt = ⟨d.x * s.r, -s.hh, d.y * s.r⟩) ∨
+           (-s.hh ≤ p.y ∧ p.y ≤ s.hh ∧ s.r < ρ ∧ (s.project p solid).pt = ⟨d.x * s.r, p.y, d.y * s.r⟩)))) := by
+  letI := fieldNum K sq
+  obtain ⟨f1, f2, f3, f4, f5⟩ := cyl_dir sq hs p.x p.z
+  generalize hres : s.project p solid = res
+  dsimp only [Cylinder.project] at hres
+  generalize (⟨p.x, p.z⟩ : V2 K).norm = ρ at *
+  generalize (if ρ ≤ eps then (⟨1, 0⟩ : V2 K) else (⟨p.x, p.z⟩ : V2 K).sdiv ρ) = d at *
+  refine ⟨ρ, d, f1, f2, f3, f4, f5, ?_⟩
+  split_ifs at hres with c1 c2 c3 c4 c5 c6 c7 c8 <;> subst hres
+  · exact Or.inl ⟨c1, rfl, Or.inl ⟨c2, rfl⟩⟩
+  · exact Or.inl ⟨c1, rfl, Or.inr ⟨by simpa using c2, Or.inl ⟨rfl, c3.1, c3.2.le⟩⟩⟩
+  · exact Or.inl ⟨c1, rfl, Or.inr ⟨by simpa using c2, Or.inr (Or.inl ⟨rfl, c4.1.le, c4.2.le⟩)⟩⟩
+  · refine Or.inl ⟨c1, rfl, Or.inr ⟨by simpa using c2, Or.inr (Or.inr ⟨rfl, ?_, ?_⟩)⟩⟩
+    · by_contra h; push Not at h
+      rcases le_or_gt (s.hh - p.y) (p.y - (-s.hh)) with h' | h'
+      · exact c3 ⟨h', h⟩
+      · exact c4 ⟨h', by linarith⟩
+    · by_contra h; push Not at h
+      rcases le_or_gt (s.hh - p.y) (p.y - (-s.hh)) with h' | h'
+      · exact c3 ⟨h', by linarith⟩
+      · exact c4 ⟨h', h⟩
+  · exact Or.inr ⟨c1, rfl, Or.inl ⟨c5, c6, rfl⟩⟩
+  · exact Or.inr ⟨c1, rfl, Or.inr (Or.inl ⟨c5, not_le.mp c6, rfl⟩)⟩
+  · exact Or.inr ⟨c1, rfl, Or.inr (Or.inr (Or.inl ⟨c7, c8, rfl⟩))⟩
+  · exact Or.inr ⟨c1, rfl, Or.inr (Or.inr (Or.inr (Or.inl ⟨c7, not_le.mp c8, rfl⟩)))⟩
+  · refine Or.inr ⟨c1, rfl, Or.inr (Or.inr (Or.inr (Or.inr ⟨not_lt.mp c7, not_lt.mp c5, ?_, rfl⟩)))⟩
+    by_contra h; push Not at h
+    exact c1 ⟨not_lt.mp c7, not_lt.mp c5, h⟩
+
+private theorem cyl_rho_le (ρ r x z : K) (h0 : 0 ≤ ρ) (h2 : ρ * ρ = x * x + z * z) (hr : 0 ≤ r) :
+    ρ ≤ r ↔ x * x + z * z ≤ r * r := by
+  rw [← h2]
+  exact ⟨fun h => mul_self_le_mul_self h0 h, fun h => le_of_mul_self_le hr h⟩
+
+/-- **inside flag** ⇔ membership in the cylinder -/
+theorem cyl_inside_iff (hs : LawfulSqrt sq) (s : Cylinder K) (p : V3 K) (solid : Bool) (hok : CylOk s) :
+    letI := fieldNum K sq
+    (s.project p solid).inside = true ↔ s.Mem p := by
+  letI := fieldNum K sq
+  have hr0 : 0 ≤ s.r := le_trans (eps_pos (K := K)).le hok.2
+  obtain ⟨ρ, d, h0, h2, _, _, _, hc⟩ := cyl_cases sq hs s p solid
+  have hle := cyl_rho_le ρ s.r p.x p.z h0 h2 hr0
+  simp only [Cylinder.Mem]
+  rcases hc with ⟨⟨c1, c2, c3⟩, hin, _⟩ | ⟨c, hin, _⟩
+  · rw [hin]; exact ⟨fun _ => ⟨⟨c1, c2⟩, hle.mp c3⟩, fun _ => rfl⟩
+  · rw [hin]
+    exact ⟨fun h => absurd h (by simp), fun ⟨⟨a, b⟩, c'⟩ => absurd ⟨a, b, hle.mpr c'⟩ c⟩
+
+/-- `contains_local_point` (default) ⇔ membership -/
+theorem cyl_contains_iff (hs : LawfulSqrt sq) (s : Cylinder K) (p : V3 K) (hok : CylOk s) :
+    letI := fieldNum K sq
+    defaultContains3 (s.project) p = true ↔ s.Mem p :=
+  cyl_inside_iff sq hs s p true hok
+
+/-- **membership and boundary**: the projection is a point of the cylinder; with `solid = false`, or for an outside point, it
+lies on a cap or on the lateral surface. -/
+theorem cyl_project_mem (hs : LawfulSqrt sq) (s : Cylinder K) (p : V3 K) (solid : Bool) (hok : CylOk s) :
+    letI := fieldNum K sq
+    s.Mem (s.project p solid).pt ∧ ((solid = false ∨ ¬ s.Mem p) → CylBnd sq s (s.project p solid).pt) := by
+  letI := fieldNum K sq
+  have hr0 : 0 ≤ s.r := le_trans (eps_pos (K := K)).le hok.2
+  have hh0 := hok.1
+  have hin := cyl_inside_iff sq hs s p solid hok
+  obtain ⟨ρ, d, h0, h2, hd, _, _, hc⟩ := cyl_cases sq hs s p solid
+  have hle := cyl_rho_le ρ s.r p.x p.z h0 h2 hr0
+  have hside : ∀ y' : K, -s.hh ≤ y' → y' ≤ s.hh → (⟨d.x * s.r, y', d.y * s.r⟩ : V3 K).x * (⟨d.x * s.r, y', d.y * s.r⟩ : V3 K).x
+      + (⟨d.x * s.r, y', d.y * s.r⟩ : V3 K).z * (⟨d.x * s.r, y', d.y * s.r⟩ : V3 K).z = s.r * s.r := by
+    intro y' _ _
+    simp only [V2.normSq, V2.dot] at hd
+    simp only []
+    linear_combination (s.r * s.r) * hd
+  simp only [CylBnd, Cylinder.Mem] at *
+  rcases hc with ⟨⟨c1, c2, c3⟩, hi, ⟨hsol, e⟩ | ⟨hsol, ⟨e, _, _⟩ | ⟨e, _, _⟩ | ⟨e, _, _⟩⟩⟩ |
+      ⟨c, hi, ⟨c1, c2, e⟩ | ⟨c1, c2, e⟩ | ⟨c1, c2, e⟩ | ⟨c1, c2, e⟩ | ⟨c1, c2, c3, e⟩⟩ <;> rw [e]
+  · refine ⟨⟨⟨c1, c2⟩, hle.mp c3⟩, fun h => ?_⟩
+    rcases h with h | h
+    · rw [hsol] at h; exact absurd h (by simp)
+    · exact absurd ⟨⟨c1, c2⟩, hle.mp c3⟩ h
+  · exact ⟨⟨⟨by linarith, le_refl _⟩, hle.mp c3⟩, fun _ => ⟨⟨⟨by linarith, le_refl _⟩, hle.mp c3⟩, Or.inl rfl⟩⟩
+  · exact ⟨⟨⟨le_refl _, by linarith⟩, hle.mp c3⟩, fun _ => ⟨⟨⟨le_refl _, by linarith⟩, hle.mp c3⟩, Or.inr (Or.inl rfl)⟩⟩
+  · have := hside p.y c1 c2
+    exact ⟨⟨⟨c1, c2⟩, le_of_eq this⟩, fun _ => ⟨⟨⟨c1, c2⟩, le_of_eq this⟩, Or.inr (Or.inr this)⟩⟩
+  · exact ⟨⟨⟨by linarith, le_refl _⟩, hle.mp c2⟩, fun _ => ⟨⟨⟨by linarith, le_refl _⟩, hle.mp c2⟩, Or.inl rfl⟩⟩
+  · have := hside s.hh (by linarith) (le_refl _)
+    exact ⟨⟨⟨by linarith, le_refl _⟩, le_of_eq this⟩, fun _ => ⟨⟨⟨by linarith, le_refl _⟩, le_of_eq this⟩, Or.inl rfl⟩⟩
+  · exact ⟨⟨⟨le_refl _, by linarith⟩, hle.mp c2⟩, fun _ => ⟨⟨⟨le_refl _, by linarith⟩, hle.mp c2⟩, Or.inr (Or.inl rfl)⟩⟩
+  · have := hside (-s.hh) (le_refl _) (by linarith)
+    exact ⟨⟨⟨le_refl _, by linarith⟩, le_of_eq this⟩, fun _ => ⟨⟨⟨le_refl _, by linarith⟩, le_of_eq this⟩, Or.inr (Or.inl rfl)⟩⟩
+  · have := hside p.y c1 c2
+    exact ⟨⟨⟨c1, c2⟩, le_of_eq this⟩, fun _ => ⟨⟨⟨c1, c2⟩, le_of_eq this⟩, Or.inr (Or.inr this)⟩⟩
+
+/-- radial lower bound: a point at radial distance `ρ` is at least `|r - ρ|` away (in the `xz`-plane) from the circle of radius `r` -/
+private theorem rad_lb (ρ r x z qx qz : K) (h0 : 0 ≤ ρ) (h2 : ρ * ρ = x * x + z * z) (hr : 0 ≤ r) (hq : qx * qx + qz * qz = r * r) :
+    (r - ρ) * (r - ρ) ≤ (x - qx) * (x - qx) + (z - qz) * (z - qz) := by
+  have := dot_le2 x z qx qz ρ r (le_of_eq h2.symm) (le_of_eq hq) h0 hr
+  nlinarith
+
+/-- **optimality w.r.t. the solid cylinder**: for `solid = true`, or for a point outside, no point of the cylinder is closer
+(caps, rims and lateral surface). -/
+theorem cyl_project_optimal (hs : LawfulSqrt sq) (s : Cylinder K) (p q : V3 K) (solid : Bool) (hok : CylOk s) :
+    letI := fieldNum K sq
+    s.Mem q → (solid = true ∨ ¬ s.Mem p) → dsq3 p (s.project p solid).pt ≤ dsq3 p q := by
+  letI := fieldNum K sq
+  intro hq hcnd
+  have he := eps_pos (K := K)
+  have hr0 : 0 ≤ s.r := le_trans he.le hok.2
+  obtain ⟨ρ, d, h0, h2, hd, hdir, _, hc⟩ := cyl_cases sq hs s p solid
+  have hle := cyl_rho_le ρ s.r p.x p.z h0 h2 hr0
+  simp only [Cylinder.Mem] at hq hcnd
+  obtain ⟨⟨q1, q2⟩, q3⟩ := hq
+  simp only [V2.normSq, V2.dot] at hd
+  have hdq := dot_le2 d.x d.y q.x q.z 1 s.r (by linarith) q3 zero_le_one hr0
+  rcases hc with ⟨⟨c1, c2, c3⟩, hi, ⟨hsol, e⟩ | ⟨hsol, _⟩⟩ |
+      ⟨c, hi, ⟨c1, c2, e⟩ | ⟨c1, c2, e⟩ | ⟨c1, c2, e⟩ | ⟨c1, c2, e⟩ | ⟨c1, c2, c3, e⟩⟩
+  · rw [e]; simp only [dsq3]
+    nlinarith [mul_self_nonneg (p.x - q.x), mul_self_nonneg (p.y - q.y), mul_self_nonneg (p.z - q.z)]
+  · exfalso
+    rcases hcnd with h | h
+    · rw [hsol] at h; exact absurd h (by simp)
+    · exact h ⟨⟨c1, c2⟩, hle.mp c3⟩
+  · rw [e]; apply opt_of_var3; simp only []
+    nlinarith [mul_nonneg (sub_nonneg.2 c1.le) (sub_nonneg.2 q2)]
+  · obtain ⟨ex, ez⟩ := hdir (lt_of_le_of_lt hok.2 c2)
+    rw [e]; apply opt_of_var3; simp only []
+    rw [ex, ez]
+    have e1 : (d.x * ρ - d.x * s.r) * (q.x - d.x * s.r) + (p.y - s.hh) * (q.y - s.hh) + (d.y * ρ - d.y * s.r) * (q.z - d.y * s.r)
+        = (ρ - s.r) * ((d.x * q.x + d.y * q.z) - s.r) + (p.y - s.hh) * (q.y - s.hh) := by
+      linear_combination (-(ρ - s.r) * s.r) * hd
+    rw [e1]
+    nlinarith [mul_nonneg (sub_nonneg.2 c1.le) (sub_nonneg.2 q2), mul_nonneg (sub_nonneg.2 c2.le) (sub_nonneg.2 hdq)]
+  · rw [e]; apply opt_of_var3; simp only []
+    nlinarith [mul_nonneg (sub_nonneg.2 c1.le) (sub_nonneg.2 q1)]
+  · obtain ⟨ex, ez⟩ := hdir (lt_of_le_of_lt hok.2 c2)
+    rw [e]; apply opt_of_var3; simp only []
+    rw [ex, ez]
+    have e1 : (d.x * ρ - d.x * s.r) * (q.x - d.x * s.r) + (p.y - -s.hh) * (q.y - -s.hh) + (d.y * ρ - d.y * s.r) * (q.z - d.y * s.r)
+        = (ρ - s.r) * ((d.x * q.x + d.y * q.z) - s.r) + (p.y - -s.hh) * (q.y - -s.hh) := by
+      linear_combination (-(ρ - s.r) * s.r) * hd
+    rw [e1]
+    nlinarith [mul_nonneg (sub_nonneg.2 c1.le) (sub_nonneg.2 q1), mul_nonneg (sub_nonneg.2 c2.le) (sub_nonneg.2 hdq)]
+  · obtain ⟨ex, ez⟩ := hdir (lt_of_le_of_lt hok.2 c3)
+    rw [e]; apply opt_of_var3; simp only []
+    rw [ex, ez]
+    have e1 : (d.x * ρ - d.x * s.r) * (q.x - d.x * s.r) + (p.y - p.y) * (q.y - p.y) + (d.y * ρ - d.y * s.r) * (q.z - d.y * s.r)
+        = (ρ - s.r) * ((d.x * q.x + d.y * q.z) - s.r) := by
+      linear_combination (-(ρ - s.r) * s.r) * hd
+    rw [e1]
+    nlinarith [mul_nonneg (sub_nonneg.2 c3.le) (sub_nonneg.2 hdq)]
+
+/-- **optimality w.r.t. the surface** (any flag; this is the clause for `solid = false` and an interior point): no point of the
+caps or of the lateral surface is closer than the projection.  Hypothesis: the radial distance is `0` or `> ε`
+(for `0 < ρ ≤ ε` the code substitutes the direction `(1,0)`, which is optimal only up to `2ε`). -/
+theorem cyl_project_optimal_boundary (hs : LawfulSqrt sq) (s : Cylinder K) (p q : V3 K) (solid : Bool) (hok : CylOk s) :
+    letI := fieldNum K sq
+    CylBnd sq s q →
+    (p.x * p.x + p.z * p.z = 0 ∨ ((mkRat 1 4503599627370496 : ℚ) : K) * ((mkRat 1 4503599627370496 : ℚ) : K) < p.x * p.x + p.z * p.z) →
+    dsq3 p (s.project p solid).pt ≤ dsq3 p q := by
+  letI := fieldNum K sq
+  intro hq hrad
+  by_cases hcnd : solid = true ∨ ¬ s.Mem p
+  · exact cyl_project_optimal sq hs s p q solid hok hq.1 hcnd
+  · push Not at hcnd
+    have he := eps_pos (K := K)
+    have hr0 : 0 ≤ s.r := le_trans he.le hok.2
+    obtain ⟨ρ, d, h0, h2, hd, hdir, hd1, hc⟩ := cyl_cases sq hs s p solid
+    have hle := cyl_rho_le ρ s.r p.x p.z h0 h2 hr0
+    simp only [CylBnd, Cylinder.Mem] at hq hcnd
+    obtain ⟨⟨⟨q1, q2⟩, q3⟩, hf⟩ := hq
+    obtain ⟨hsol, ⟨m1, m2⟩, m3⟩ := hcnd
+    simp only [V2.normSq, V2.dot] at hd
+    -- every surface point is at least as far as each of the three candidate distances
+    have key : ∀ δ : K, 0 ≤ δ → δ ≤ s.hh - p.y → δ ≤ p.y - (-s.hh) → δ ≤ s.r - ρ → δ * δ ≤ dsq3 p q := by
+      intro δ hδ a1 a2 a3
+      simp only [dsq3]
+      have sx := mul_self_nonneg (p.x - q.x); have sy := mul_self_nonneg (p.y - q.y); have sz := mul_self_nonneg (p.z - q.z)
+      rcases hf with e | e | e
+      · have : δ * δ ≤ (p.y - q.y) * (p.y - q.y) := by rw [e]; have := mul_self_le_mul_self hδ a1; nlinarith
+        linarith
+      · have : δ * δ ≤ (p.y - q.y) * (p.y - q.y) := by rw [e]; have := mul_self_le_mul_self hδ a2; nlinarith
+        linarith
+      · have h1 := rad_lb ρ s.r p.x p.z q.x q.z h0 h2 hr0 e
+        have h3 := mul_self_le_mul_self hδ a3
+        linarith
+    rcases hc with ⟨⟨c1, c2, c3⟩, hi, ⟨hs', _⟩ | ⟨_, ⟨e, b1, b2⟩ | ⟨e, b1, b2⟩ | ⟨e, b1, b2⟩⟩⟩ | ⟨c, _, _⟩
+    · rw [hs'] at hsol; exact absurd hsol (by simp)
+    · rw [e]
+      have := key (s.hh - p.y) (by linarith) (le_refl _) b1 b2
+      simp only [dsq3] at this ⊢
+      nlinarith
+    · rw [e]
+      have := key (p.y - (-s.hh)) (by linarith) b1 (le_refl _) b2
+      simp only [dsq3] at this ⊢
+      nlinarith
+    · rw [e]
+      have := key (s.r - ρ) (by linarith) b1 b2 (le_refl _)
+      have hd2 : dsq3 p (⟨d.x * s.r, p.y, d.y * s.r⟩ : V3 K) = (s.r - ρ) * (s.r - ρ) := by
+        rcases hrad with hz | hz
+        · have hρ : ρ = 0 := by
+            have : ρ * ρ = 0 := by rw [h2, hz]
+            exact mul_self_eq_zero.mp this
+          obtain ⟨ex, ez⟩ := sumsq2_eq_zero (le_of_eq hz)
+          have hd' := hd1 (by rw [hρ]; exact he.le)
+          rw [hd', hρ]; simp only [dsq3]; rw [ex, ez]; ring
+        · have hlt : ((mkRat 1 4503599627370496 : ℚ) : K) < ρ := by
+            by_contra hcon; push Not at hcon
+            have := mul_self_le_mul_self h0 hcon
+            rw [h2] at this; linarith
+          obtain ⟨ex, ez⟩ := hdir hlt
+          simp only [dsq3]
+          rw [ex, ez]
+          linear_combination ((ρ - s.r) * (ρ - s.r)) * hd
+      rw [hd2]; exact this
+    · exact absurd ⟨m1, m2, hle.mpr m3⟩ c
+
+example : CylOk (⟨1/10, 10⟩ : Cylinder ℚ) ∧ CylBnd (fun x => x) (⟨1/10, 10⟩ : Cylinder ℚ) ⟨0, 1/10, 0⟩ := by
+  simp only [CylOk, CylBnd, Cylinder.Mem]; norm_num
+
+/-! ## Negated theorem on the pinned tree (cylinder defect) -/
+
+/-- **negated theorem for the pinned tree** (cylinder): flat cylinder `hh = 1/10`, `r = 10`, query point at the centre,
+`solid = false`: the pinned cap selection (both tests strict) returns the lateral point `(10,0,0)` at distance `10`, although
+the cap point `(0,1/10,0)` returned by the corrected model is at distance `1/10`.  (`sqrt` is only evaluated at `0` here.) -/
+theorem cyl_pinned_not_nearest :
+    (@Cylinder.projectPinned ℚ (fieldNum ℚ (fun _ => 0)) (⟨1/10, 10⟩ : Cylinder ℚ) (⟨0, 0, 0⟩ : V3 ℚ) false).pt = ⟨10, 0, 0⟩ ∧
+    (@Cylinder.project ℚ (fieldNum ℚ (fun _ => 0)) (⟨1/10, 10⟩ : Cylinder ℚ) (⟨0, 0, 0⟩ : V3 ℚ) false).pt = ⟨0, 1/10, 0⟩ := by
+  constructor
+  · simp only [Cylinder.projectPinned, V2.norm, V2.normSq, V2.dot, fieldNum_sqrt, eps, fieldNum_lit, V2.smul]
+    norm_num
+  · simp only [Cylinder.project, V2.norm, V2.normSq, V2.dot, fieldNum_sqrt, eps, fieldNum_lit, V2.smul]
+    norm_num
+
+
 end C05
